@@ -17,6 +17,12 @@ CONSTANTS
   FreshPipe = TRUE
   ResetClosed = TRUE
   BlockAfterClose = TRUE
+  BusyTicks = 3
+  SlowTicks = 3
+  WaitT = 1
+  TermT = 5
+  WaitTruthful = TRUE
+  TermOwnTimeout = TRUE
 INVARIANT TypeOK
 INVARIANT Inv_C05_Stream
 INVARIANT Inv_C05_Count
